@@ -101,7 +101,7 @@ Start ==
 Copy(u) ==
   IF FixCopy
   THEN [orig EXCEPT !.url = u, !.host = NoHost, !.cookie = {},
-                    !.auth = (IF Authority(u) = Authority(orig.url) THEN orig.auth ELSE "none"),
+                    !.auth = (IF Authority(u) = Authority(orig.url) /\ u.scheme = orig.url.scheme THEN orig.auth ELSE "none"),
                     !.referer = (IF orig.referer = "https" /\ u.scheme = "http" THEN "none" ELSE orig.referer)]
   ELSE [orig EXCEPT !.url = u]
 
